@@ -263,7 +263,7 @@ func round(s *slip.Scope, f slip.Object, args slip.List, depth int) slip.Values 
 		}
 
 		q = (*slip.Bignum)(&bi)
-		r = (*slip.Ratio)(&zr)
+		r = ratReduce(&zr)
 		q = bigToInteger((*big.Int)(q.(*slip.Bignum)))
 	case slip.Complex:
 		slip.TypePanic(s, depth, "number", tn, "real")
